@@ -1106,3 +1106,50 @@ MUTANTS += [
  dict(name='seed-C17-fq12-frobenius-index-subtract', prop='C17', patch='seeded/C17-fq12-frobenius-index-subtract/patch.diff', expect='R-BOUNDS'),
  dict(name='seed-C18-fq6-multiply-operand-swap-lazy-read', prop='C18', patch='seeded/C18-fq6-multiply-operand-swap-lazy-read/patch.diff', expect='this==a, this==b'),
 ]
+# ---- inversion (binary extended Euclid) steps
+MUTANTS += [
+ dict(name='c02-inverse-compare-direction', prop='C02', expect='fp_inverse',
+      edits=[('include/core/fp_utils.hpp', 'if (BigInt<Fp::bits_value>::compare(v, u) == -1) {', 'if (BigInt<Fp::bits_value>::compare(v, u) == 1) {')]),
+ dict(name='c02-inverse-odd-accumulator-not-lifted', prop='C02', expect='fp_inverse',
+      edits=[('include/core/fp_utils.hpp', '                if (b.val.is_odd()) {\n                    b.val.add(b.val, Fp::p_value);\n                }', '                if (b.val.is_even()) {\n                    b.val.add(b.val, Fp::p_value);\n                }')]),
+ dict(name='c02-inverse-accumulator-subtraction-swapped', prop='C02', expect='fp_inverse',
+      edits=[('include/core/fp_utils.hpp', '                u.subtract(u, v);\n                b.subtract(b, c);', '                u.subtract(u, v);\n                b.subtract(c, b);')]),
+ dict(name='c02-inverse-result-selection-swapped', prop='C02', expect='fp_inverse',
+      edits=[('include/core/fp_utils.hpp', '        if (u.is_one()) {\n            res.copy(b);\n        } else {\n            res.copy(c);', '        if (u.is_one()) {\n            res.copy(c);\n        } else {\n            res.copy(b);')]),
+ dict(name='c02-inverse-loop-until-both-one', prop='C02', expect='fp_inverse',
+      edits=[('include/core/fp_utils.hpp', 'while (!u.is_one() && !v.is_one()) {', 'while (!u.is_one() || !v.is_one()) {')]),
+ dict(name='c02-inverse-starts-from-R', prop='C02', expect='fp_inverse',
+      edits=[('include/core/fp_utils.hpp', 'b.copy(Fp::r2_value);', 'b.copy(Fp::r_value);')]),
+ dict(name='c02-benign-inverse-halving-loops-swapped', prop='C02', benign=True, expect='',
+      edits=[('include/core/fp_utils.hpp', """            while (u.is_even()) {
+                u.template shift_right_in_word<1>(u);
+                if (b.val.is_odd()) {
+                    b.val.add(b.val, Fp::p_value);
+                }
+                b.val.template shift_right_in_word<1>(b.val);
+            }
+            while (v.is_even()) {
+                v.template shift_right_in_word<1>(v);
+                if (c.val.is_odd()) {
+                    c.val.add(c.val, Fp::p_value);
+                }
+                c.val.template shift_right_in_word<1>(c.val);
+            }
+""", """            while (v.is_even()) {
+                v.template shift_right_in_word<1>(v);
+                if (c.val.is_odd()) {
+                    c.val.add(c.val, Fp::p_value);
+                }
+                c.val.template shift_right_in_word<1>(c.val);
+            }
+            while (u.is_even()) {
+                u.template shift_right_in_word<1>(u);
+                if (b.val.is_odd()) {
+                    b.val.add(b.val, Fp::p_value);
+                }
+                b.val.template shift_right_in_word<1>(b.val);
+            }
+""")]),
+ dict(name='seed-C02-fp-inverse-kaliski-no-verdict', prop='C02', novd=True, expect='', patch='seeded/C02-fp-inverse-kaliski-short-iteration-count/patch.diff'),
+ dict(name='seed-C15-secretkey-marshal-batched-inversion-no-verdict', prop='C15', novd=True, expect='', patch='seeded/C15-secretkey-marshal-batched-inversion-identity-slot/patch.diff'),
+]
